@@ -94,12 +94,17 @@ def entries():
     def two(f):
         return lambda: [f(), {}]
     # single-signal sift routines: fn(primary array, option dicts) -> result
-    add('sift', lambda a, o: S.sift(a, max_imfs=3, **o), SIFT_ACC, SIFT_REJ, optdicts=two(opts))
+    add('sift', lambda a, o: S.sift(a, max_imfs=3, **o), SIFT_ACC, SIFT_REJ, optdicts=lambda: [opts(), {}, with_energy()])
+    def with_energy():
+        o = opts()
+        o['imf_opts'] = dict(o['imf_opts'], energy_thresh=50)
+        return o
     add('get_next_imf', lambda a, o: S.get_next_imf(a, envelope_opts=o.get('envelope_opts'), extrema_opts=o.get('extrema_opts'), **o.get('imf_opts', {})),
-        SIFT_ACC, SIFT_REJ, optdicts=two(opts))
+        SIFT_ACC, SIFT_REJ, optdicts=lambda: [opts(), {}, with_energy()])
     add('get_next_imf_mask', lambda a, o: S.get_next_imf_mask(a, 0.2, 0.5, nphases=2, **o), SIFT_ACC, SIFT_REJ, optdicts=two(opts))
     add('mask_sift', lambda a, o: S.mask_sift(a, max_imfs=2, nphases=2, **o), SIFT_ACC, SIFT_REJ,
-        optdicts=lambda: [opts(), {}, dict(mask_freqs=np.array([0.3, 0.1]), mask_amp=np.array([1.0, 0.5]), mask_amp_mode='ratio_sig')])
+        optdicts=lambda: [opts(), {}, dict(mask_freqs=np.array([0.3, 0.1]), mask_amp=np.array([1.0, 0.5]), mask_amp_mode='ratio_sig'),
+                          dict(imf_opts={'energy_thresh': 50, 'sd_thresh': 0.2})])
     add('ensemble_sift', lambda a, o: S.ensemble_sift(a, nensembles=2, max_imfs=2, **o), SIFT_ACC, SIFT_REJ,
         optdicts=lambda: [opts(), dict(noise_mode='flip')])
     add('complete_ensemble_sift', lambda a, o: S.complete_ensemble_sift(a, nensembles=2, max_imfs=2, **o), SIFT_ACC, SIFT_REJ,
@@ -304,6 +309,23 @@ def check_case(case):
             except Exception:
                 pass
             trans += 1
+        if ent['mism'] and name in ('hilberthuang', 'phase_align', 'get_cycle_vector:mask', 'bin_by_phase') and si == 0:
+            # larger scope: an off-by-one length mismatch must be rejected on long arrays too
+            for nlong in (100000, 250001):
+                xl = np.cos(np.arange(nlong) * 0.01)
+                pl = ent['prep'](xl)
+                bl = second_arg(name, xl, 'v')
+                for bad in (bl[:-1], np.r_[bl, bl[:1]]):
+                    what = '%s second argument length %d vs %d' % (tag, len(bad), nlong)
+                    try:
+                        with guard.watchdog(120):
+                            call(pl.copy(), copy.deepcopy(optsets[0]), bad)
+                        viols.append(('mismatch:processed:long', '%s: mismatched lengths were processed' % what))
+                    except guard.CaseTimeout:
+                        viols.append(('mismatch:hang', what))
+                    except Exception:
+                        pass
+                    trans += 1
         if ent['mism']:
             for b in ent['mism'](x):
                 what = '%s second argument length %d vs %d' % (tag, len(b), len(x))
